@@ -75,6 +75,20 @@ theorem tie_clearBits (x n : Nat) (hx : x < 2 ^ 64) (hn : n < 64) :
   rw [this, and_mask x n hx (by omega)]
 
 
+/-! ### The specification is the plain Merkle forest -/
+
+/-- every leaf lies in exactly one tree of the forest (one perfect tree per set bit of
+    `n`, the higher ones to the left), and `treeHeight` names it -/
+theorem c05_spec_tree_partition (n i : Nat) (hi : i < n) :
+    (n.testBit (treeHeight n i) = true ∧ treeStart n (treeHeight n i) ≤ i ∧
+      i < treeStart n (treeHeight n i) + 2 ^ treeHeight n i) ∧
+    ∀ h, n.testBit h = true → treeStart n h ≤ i → i < treeStart n h + 2 ^ h → h = treeHeight n i :=
+  ⟨treeHeight_spec hi, fun _ h1 h2 h3 => (treeHeight_unique ⟨h1, h2, h3⟩).symm⟩
+
+/-- the roots used by the specification are the plain "halve the list" Merkle roots -/
+theorem c05_spec_root_structural {H : Type} [Hasher H] [Inhabited H] (ls : List H) (h s : Nat) :
+    subRoot ls h s = halvingRoot h (ls.drop s) := subRoot_eq_halving ls h s
+
 /-! ### addLeaves -/
 
 section
